@@ -20,7 +20,7 @@ RULE = (
     "repository's level patterns x generic pattern x test-case patterns with picture lists; non-trivial = at least one insertion needed"
 )
 BOUNDS = {
-    "quick": "required lists up to length 2 over {a,b,c}; single patterns: all 207 trees up to 4 nodes; pattern pairs: 400 seeded pairs of trees up to 3 nodes; 300 seeded two-branch alternations of symbol chains; depth_limit 1..3; real combinations with up to 3 pictures",
+    "quick": "required lists up to length 2 over {a,b,c}; single patterns: all 207 trees up to 4 nodes; pattern pairs: 400 seeded pairs of trees up to 3 nodes; 300 seeded two-branch alternations of symbol chains; 300 seeded ordered pairs of such alternations / short chains; depth_limit 1..3; real combinations with up to 3 pictures",
     "thorough": "required lists up to length 3; all 207 trees up to 4 nodes singly; 2000 seeded pairs of trees up to 4 nodes; 2000 two-branch alternations; real combinations with up to 4 pictures",
 }
 OUTSIDE = "longer lists, larger pattern sets, depth limits above 3"
@@ -41,6 +41,10 @@ TESTCASE_PATTERNS = [
     "sequence_header (. sequence_header)* end_of_sequence",
     "(sequence_header .)* end_of_sequence",
 ]
+
+
+def _size(t):
+    return 1 if t[0] in ("sym", "any") else 1 + sum(_size(x) for x in t[1:] if isinstance(x, tuple))
 
 
 def _lists(maxlen):
@@ -74,7 +78,14 @@ def tasks(tier, seed):
            ("alt", chain([("sym", "a")] + [("sym", "b")] * 4), chain([("sym", "c"), ("sym", "a")]))]
     for _ in range(300 if quick else 2000):
         two.append(("alt", rnd.choice(chains), rnd.choice(chains)))
-    sets = [(t,) for t in singles] + pairs + [(t,) for t in two]
+    # pairs whose members are alternations of short chains / short chains (order of the patterns matters too)
+    short = [c for c in chains if _size(c) <= 3]
+    mixed = []
+    for _ in range(300 if quick else 2000):
+        a = ("alt", rnd.choice(short), rnd.choice(short))
+        b = rnd.choice(short + [("alt", rnd.choice(short), rnd.choice(short))])
+        mixed.append((a, b) if rnd.random() < 0.5 else (b, a))
+    sets = [(t,) for t in singles] + pairs + [(t,) for t in two] + mixed
     lists = _lists(2 if quick else 3)
     out = []
     B = 10
